@@ -11,7 +11,7 @@ pub fn def() -> PropDef {
     PropDef {
         info: PropInfo {
             id: "C19",
-            rule: "argument tuples from boundary-heavy u64 pools (0, 1, 15, 16, 16^k-1, 16^k, 2^52+-1, 2^53, perfect squares +-1, 2^63, u64::MAX, random): gather_bytes vs the shift/or formula; memfrob on buffers of 0-256 bytes inside a canary arena (exactly len bytes XOR 0x2a, neighbours untouched, twice = identity, returns 0); strcmp on NUL-terminated strings with common prefixes (0 iff equal, |a-b| of the first differing bytes, all-ones for a null pointer); sqrti vs (x as f64).sqrt() truncated and vs the exact integer square root below 2^52, on boundary pools, on k^2 +- d for k of every bit length, and on values that are both within a few ulps of a square and one below / on / one above a rounding tie of the u64 -> f64 conversion; bpf_trace_printf with fd 1 redirected to a pipe (return value == number of bytes read from the pipe, text == the three hexadecimal numbers); rand(min,max) in [min,max] when min<max; none may panic. Non-trivial = tuple with a value >= 2^32 or a buffer of >= 1 byte; distinct by hash of (helper, arguments).",
+            rule: "argument tuples from boundary-heavy u64 pools (0, 1, 15, 16, 16^k-1, 16^k, 2^52+-1, 2^53, perfect squares +-1, 2^63, u64::MAX, random): gather_bytes vs the shift/or formula; memfrob on buffers of 0-256 bytes inside a canary arena (exactly len bytes XOR 0x2a, neighbours untouched, twice = identity, returns 0); strcmp on NUL-terminated strings with common prefixes (0 iff equal, |a-b| of the first differing bytes, all-ones for a null pointer), on heap buffers and - in a forked child - on strings whose terminators lie 0-2000 bytes before the end of a page that is followed by a differently filled page or by an inaccessible one (a fault is a violation); memfrob likewise on buffers that end 0-2000 bytes before an inaccessible page; sqrti vs (x as f64).sqrt() truncated and vs the exact integer square root below 2^52, on boundary pools, on k^2 +- d for k of every bit length, and on values that are both within a few ulps of a square and one below / on / one above a rounding tie of the u64 -> f64 conversion; bpf_trace_printf with fd 1 redirected to a pipe (return value == number of bytes read from the pipe, text == the three hexadecimal numbers); rand(min,max) in [min,max] when min<max; none may panic. Non-trivial = tuple with a value >= 2^32 or a buffer of >= 1 byte; distinct by hash of (helper, arguments).",
             assumptions: &["println! writes through file descriptor 1 of the process", "bpf_ktime_getns is not part of the property"],
         },
         run,
@@ -68,12 +68,22 @@ pub enum HCase {
     Memfrob { buf: Vec<u8>, start: usize, len: usize },
     Strcmp { a: Vec<u8>, b: Vec<u8>, null_a: bool, null_b: bool },
     Sqrti(u64),
+    /// strings placed in two guard-page arenas (two pages + PROT_NONE): the terminator of each
+    /// lies `d` bytes before the end of page `k` (d = 0: last byte of the page; k = 1: the next
+    /// page is inaccessible)
+    StrcmpAt { a: Vec<u8>, b: Vec<u8>, ak: u8, ad: u16, bk: u8, bd: u16 },
+    /// buffer whose last byte lies `d` bytes before an inaccessible page
+    MemfrobAt { buf: Vec<u8>, d: u16 },
     Printf([u64; 3]),
     Rand(u64, u64, u8),
 }
 
 fn cstr() -> impl Strategy<Value = Vec<u8>> {
     prop::collection::vec(prop_oneof![3 => 1u8..=255, 2 => prop::sample::select(vec![b'a', b'b', 1u8, 255u8, 0x2a])], 0..12)
+}
+
+fn page_dist() -> impl Strategy<Value = u16> {
+    prop_oneof![4 => Just(0u16), 3 => 1u16..9, 1 => 9u16..64, 1 => 64u16..2000]
 }
 
 fn hcase() -> impl Strategy<Value = HCase> {
@@ -96,6 +106,19 @@ fn hcase() -> impl Strategy<Value = HCase> {
             HCase::Strcmp { a, b, null_a: na == 0, null_b: nb == 0 }
         }),
         3 => sqrt_arg().prop_map(HCase::Sqrti),
+        1 => (cstr(), cstr(), any::<u8>(), 0u8..2, page_dist(), 0u8..2, page_dist()).prop_map(|(a, mut b, share, ak, ad, bk, bd)| {
+            let k = (share as usize * (a.len() + 1)) >> 8;
+            let mut nb2 = a[..k].to_vec();
+            if share & 3 != 0 {
+                nb2.extend_from_slice(&b);
+            }
+            b = nb2;
+            if share & 3 == 1 {
+                b = a.clone();
+            }
+            HCase::StrcmpAt { a, b, ak, ad, bk, bd }
+        }),
+        1 => (prop::collection::vec(any::<u8>(), 0..64), page_dist()).prop_map(|(buf, d)| HCase::MemfrobAt { buf, d }),
         1 => [big(), big(), big()].prop_map(HCase::Printf),
         2 => (big(), big(), any::<u8>()).prop_map(|(a, b, k)| HCase::Rand(a, b, k)),
     ]
@@ -212,6 +235,83 @@ pub fn check(c: &HCase) -> Verdict {
             }
             Verdict::Pass
         }
+        HCase::StrcmpAt { a, b, ak, ad, bk, bd } => {
+            use crate::runner::{Arena, PAGE};
+            thread_local! {
+                static ARENAS: (Arena, Arena) = (Arena::new(2, false), Arena::new(2, false));
+            }
+            ARENAS.with(|(aa, ab)| unsafe {
+                let place = |ar: &Arena, s: &[u8], k: u8, d: u16, salt: u8| -> (u64, Vec<u8>) {
+                    let base = ar.data_start();
+                    for i in 0..2 * PAGE {
+                        *base.add(i) = (i as u8).wrapping_mul(37).wrapping_add(salt) | 1;
+                    }
+                    let term = (PAGE * (k as usize % 2 + 1) - 1).saturating_sub(d as usize).max(s.len());
+                    let start = term - s.len();
+                    std::ptr::copy_nonoverlapping(s.as_ptr(), base.add(start), s.len());
+                    *base.add(term) = 0;
+                    (base.add(start) as u64, std::slice::from_raw_parts(base, 2 * PAGE).to_vec())
+                };
+                let (pa, img_a) = place(aa, a, *ak, *ad, 0x11);
+                let (pb, img_b) = place(ab, b, *bk, *bd, 0x9d);
+                let mut i = 0;
+                let want = loop {
+                    let (x, y) = (a.get(i).copied().unwrap_or(0), b.get(i).copied().unwrap_or(0));
+                    if x != y || x == 0 {
+                        break (x as i64 - y as i64).unsigned_abs();
+                    }
+                    i += 1;
+                };
+                let r = super::fork_call(|| (1, helpers::strcmp(pa, pb, 0, 0, 0)));
+                let desc = || format!("strcmp({a:?}, {b:?}) with the terminators {} / {} bytes before the end of page {} / {} of two 2-page buffers followed by inaccessible pages (addresses {pa:#x}, {pb:#x})", ad, bd, ak % 2, bk % 2);
+                match r {
+                    Err(sig) => Verdict::fail(format!("strcmp:signal-{sig}"), format!("{} died with signal {sig} (0 = no result): it read outside the strings", desc())),
+                    Ok((u32::MAX, _)) => Verdict::fail("strcmp:panic", format!("{} panicked", desc())),
+                    Ok((_, got)) if got != want => Verdict::fail("strcmp:value", format!("{} = {got:#x}, expected {want:#x}", desc())),
+                    Ok(_) => {
+                        if std::slice::from_raw_parts(aa.data_start(), 2 * PAGE) != &img_a[..] || std::slice::from_raw_parts(ab.data_start(), 2 * PAGE) != &img_b[..] {
+                            return Verdict::fail("strcmp:writes", format!("{} changed memory", desc()));
+                        }
+                        Verdict::Pass
+                    }
+                }
+            })
+        }
+        HCase::MemfrobAt { buf, d } => {
+            use crate::runner::{Arena, PAGE};
+            thread_local! {
+                static ARENA: Arena = Arena::new(1, true);
+            }
+            ARENA.with(|ar| unsafe {
+                let base = ar.data_start();
+                for i in 0..PAGE {
+                    *base.add(i) = (i as u8).wrapping_mul(29) | 0x80;
+                }
+                let end = PAGE - (*d as usize).min(PAGE - buf.len());
+                let start = end - buf.len();
+                std::ptr::copy_nonoverlapping(buf.as_ptr(), base.add(start), buf.len());
+                let before = std::slice::from_raw_parts(base, PAGE).to_vec();
+                let (ptr, len) = (base.add(start) as u64, buf.len() as u64);
+                // the arena is MAP_SHARED: the child's writes are visible here
+                let r = super::fork_call(|| (1, helpers::memfrob(ptr, len, 3, 4, 5)));
+                let after = std::slice::from_raw_parts(base, PAGE);
+                let desc = || format!("memfrob on a {}-byte buffer whose last byte lies {} bytes before an inaccessible page", buf.len(), PAGE - end);
+                match r {
+                    Err(sig) => Verdict::fail(format!("memfrob:signal-{sig}"), format!("{} died with signal {sig}: it touched memory outside the buffer", desc())),
+                    Ok((u32::MAX, _)) => Verdict::fail("memfrob:panic", format!("{} panicked", desc())),
+                    Ok((_, ret)) if ret != 0 => Verdict::fail("memfrob:return", format!("{} returned {ret}", desc())),
+                    Ok(_) => {
+                        for i in 0..PAGE {
+                            let want = if i >= start && i < end { before[i] ^ 0x2a } else { before[i] };
+                            if after[i] != want {
+                                return Verdict::fail("memfrob:bytes", format!("{}: byte at buffer offset {} is {:#x}, expected {want:#x}", desc(), i as i64 - start as i64, after[i]));
+                            }
+                        }
+                        Verdict::Pass
+                    }
+                }
+            })
+        }
         HCase::Sqrti(x) => {
             let x = *x;
             let got = match catch(move || helpers::sqrti(x, 1, 2, 3, 4)) {
@@ -274,6 +374,8 @@ fn to_json(c: &HCase) -> Value {
         HCase::Memfrob { buf, start, len } => json!({"helper": "memfrob", "buf": crate::isa::hex(buf), "start": start, "len": len}),
         HCase::Strcmp { a, b, null_a, null_b } => json!({"helper": "strcmp", "a": crate::isa::hex(a), "b": crate::isa::hex(b), "null_a": null_a, "null_b": null_b}),
         HCase::Sqrti(x) => json!({"helper": "sqrti", "x": x.to_string()}),
+        HCase::StrcmpAt { a, b, ak, ad, bk, bd } => json!({"helper": "strcmp-at", "a": a, "b": b, "ak": ak, "ad": ad, "bk": bk, "bd": bd}),
+        HCase::MemfrobAt { buf, d } => json!({"helper": "memfrob-at", "buf": buf, "d": d}),
         HCase::Printf(a) => json!({"helper": "bpf_trace_printf", "args": a.iter().map(|x| x.to_string()).collect::<Vec<_>>()}),
         HCase::Rand(a, b, k) => json!({"helper": "rand", "min": a.to_string(), "max": b.to_string(), "k": k}),
     }
@@ -290,6 +392,15 @@ fn from_json(v: &Value) -> Option<HCase> {
         "memfrob" => HCase::Memfrob { buf: crate::isa::unhex(v["buf"].as_str()?), start: v["start"].as_u64()? as usize, len: v["len"].as_u64()? as usize },
         "strcmp" => HCase::Strcmp { a: crate::isa::unhex(v["a"].as_str()?), b: crate::isa::unhex(v["b"].as_str()?), null_a: v["null_a"].as_bool()?, null_b: v["null_b"].as_bool()? },
         "sqrti" => HCase::Sqrti(num(&v["x"])),
+        "strcmp-at" => HCase::StrcmpAt {
+            a: v["a"].as_array()?.iter().map(|x| x.as_u64().unwrap_or(1) as u8).collect(),
+            b: v["b"].as_array()?.iter().map(|x| x.as_u64().unwrap_or(1) as u8).collect(),
+            ak: v["ak"].as_u64()? as u8,
+            ad: v["ad"].as_u64()? as u16,
+            bk: v["bk"].as_u64()? as u8,
+            bd: v["bd"].as_u64()? as u16,
+        },
+        "memfrob-at" => HCase::MemfrobAt { buf: v["buf"].as_array()?.iter().map(|x| x.as_u64().unwrap_or(0) as u8).collect(), d: v["d"].as_u64()? as u16 },
         "bpf_trace_printf" => {
             let a = args(3);
             HCase::Printf([a[0], a[1], a[2]])
@@ -312,6 +423,8 @@ fn run(ctx: &Ctx) {
                 HCase::Memfrob { len, .. } => ("memfrob", *len >= 1),
                 HCase::Strcmp { a, b, .. } => ("strcmp", !a.is_empty() || !b.is_empty()),
                 HCase::Sqrti(x) => ("sqrti", *x >= 1 << 32),
+                HCase::StrcmpAt { ad, bd, .. } => (if *ad == 0 || *bd == 0 { "strcmp:terminator-on-last-byte-of-a-page" } else { "strcmp:placed-near-page-end" }, true),
+                HCase::MemfrobAt { d, .. } => (if *d == 0 { "memfrob:buffer-ends-at-inaccessible-page" } else { "memfrob:placed-near-page-end" }, true),
                 HCase::Printf(a) => ("bpf_trace_printf", a.iter().any(|x| *x >= 1 << 32)),
                 HCase::Rand(a, b, _) => ("rand", *a >= 1 << 32 || *b >= 1 << 32),
             };
